@@ -103,6 +103,25 @@ def roots(tier, seed):
                                             and term in ("natural", "maxfev") and obj == "quad"
                                         case["explore"] = 1 if dev else 0
                                         out.append(case)
+        # NaN / inf regions in the *constraint* functions: the reported maxcv must be the raw (NaN) violation
+        for cons in ["ball_le", "ball_two", "ball_eq", "nl_vec", "lin+nl"]:
+            for reg in ["half", "inball", "outball", "everywhere"]:
+                for pats in [("free",) * n, ("wide",) * n]:
+                    for term in ["natural", "maxfev"]:
+                        opts = {"maxfev": 2 * n + 4} if term == "maxfev" else ({"maxfev": 40 * n} if tier == "quick" else {})
+                        case = alpha.base_case(n, pats, "in", "quad", cons, options=opts)
+                        for c in case["cons"]:
+                            if c["kind"] == "nl":
+                                c["funs"][0]["nan"] = alpha.nan_region(reg, n)
+                        case["tag"].update(cons=cons, term=term, con_nan=reg)
+                        case["explore"] = 0
+                        out.append(case)
+        # one NaN / inf answer of a constraint at every evaluation of a short run
+        for cons in ["ball_le", "ball_two", "nl_vec"]:
+            case = alpha.base_case(n, ("wide",) * n, "in", "quad", cons, options={"maxfev": 2 * n + 6})
+            case["tag"].update(cons=cons, term="maxfev", part="con-deviation")
+            case["explore"] = 1
+            out.append(case)
         # inconsistent bounds (status -1), with every kind of constraint
         for cons in ["none", "lin_le", "ball_le", "lin+nl"]:
             for cbk in [None, {"sig": "xk", "behav": "passive"}]:
@@ -115,12 +134,17 @@ def roots(tier, seed):
     return alpha.permute(out, seed)
 
 
+def _stats(rec, table, stats):
+    if rec.res is not None and float(rec.res.maxcv) != float(rec.res.maxcv):
+        stats["nan_maxcv_results"] = stats.get("nan_maxcv_results", 0) + 1
+
+
 def run_case(case):
-    return e1prop.run_case_generic(case, oracles.c02)
+    return e1prop.run_case_generic(case, oracles.c02, extra_stats=_stats)
 
 
 def coverage(agg, tier, roots_):
     need = ["evals_tr", "evals_geo", "status_0", "status_1", "status_3", "status_4", "status_5", "status_6",
-            "status_-1"]
+            "status_-1", "nan_maxcv_results"]
     return e1prop.coverage_generic(agg, tier, roots_, RULE, need=need,
                                    dev_bound=1 if tier == "thorough" else 0)
